@@ -195,8 +195,17 @@ def replay_c(payload):
             return {"confirmed": False, "error": "harness build failed", "detail": obs}
         summary = {"len": ln, "si4": si4, "ma": ma, "cell_allocation": S.cell_alloc(mask, con.SERV)[:70]}
         if bad:
-            return {"confirmed": True, "found_by": "model", "observed": obs, "expected": exp, "differs": bad,
-                    "sanitizer": obs.get("sanitizer"), "inputs_summary": summary, "cmd": h.cmd}
+            out = {"confirmed": True, "found_by": "model", "observed": obs, "expected": exp, "differs": bad,
+                   "sanitizer": obs.get("sanitizer"), "inputs_summary": summary, "cmd": h.cmd}
+            if ln == 0 and not S.cell_alloc(mask, con.SERV):
+                # same bitmap length with a non-empty cell allocation: the `f[j++]` loop then runs past the zero-size VLA.
+                # UBSan stops at the VLA bound first, so this variant is run with that one check not fatal.
+                mask2 = list(mask)
+                for a in (1, 2, 3, 700):
+                    mask2[a] |= con.SERV
+                res2 = R.run_harness(harness(tu), harness_flags() + ["-fsanitize-recover=vla-bound"], [ln, si4] + ma + mask2, ubsan_halt=False)
+                out["also_with_nonempty_cell_allocation"] = {"sanitizer": res2.get("sanitizer"), "stderr_head": (res2.get("stderr") or "")[:500]}
+            return out
         seed = int(os.environ.get("VERIF_SEED", "0") or 0)
         tried = 0
         for (l2, s2, ma2, mask2) in search_inputs(seed, 400):
@@ -262,6 +271,7 @@ WRONG_POSTS = [
     ("decode: first octet first", _wrong(_WrongOrder), "post.WRONG_first_octet_first"),
     ("decode: count is 8*len", _wrong(_WrongCount), "post.WRONG_count_is_8len"),
 ]
+BASELINE_VIOLATIONS = ("vla_bound_positive",)       # H9: fails on the unchanged tree (len == 0)
 MUTANTS = [
     (CM.SYSINFO, "ma[len - 1 - (i >> 3)]", "ma[i >> 3]", "gsm48_decode_mobile_alloc_loop3"),
     (CM.SYSINFO, "if (i >= j) {", "if (i > j) {", "gsm48_decode_mobile_alloc_"),
@@ -269,3 +279,17 @@ MUTANTS = [
     (CM.SYSINFO, "for (i = 1; i <= 1024; i++) {", "for (i = 1; i < 1024; i++) {", "gsm48_decode_mobile_alloc_"),
     (CM.SYSINFO, "freq[i].mask &= ~FREQ_TYPE_HOPP;", "freq[i].mask &= ~FREQ_TYPE_SERV;", "gsm48_decode_mobile_alloc_loop1"),
 ]
+
+
+def FUZZ_NATIVE(seed):
+    """seeded native runs of the real function against the oracle (len == 0 excluded: reported finding H9); -> first difference or None"""
+    tu = get_tu()
+    con = the_contract(tu)
+    with R.Harness(harness(tu), harness_flags()) as h:
+        for (ln, si4, ma, mask) in search_inputs(seed, 150):
+            if ln == 0:
+                continue
+            bad, obs, exp = run_one(h, con, ln, si4, ma, mask)
+            if bad:
+                return {"len": ln, "si4": si4, "ma": ma, "differs": bad}
+    return None
